@@ -190,12 +190,27 @@ type walk struct {
 	w               *world
 	stable          func(unitKey string) bool
 	viol            []string
-	vals            map[string][]string // underlying position -> distinct canonical values, in order seen
-	where           map[string]string   // underlying position -> a response path where it was seen
+	vals            map[string][]obs // underlying position -> observations (distinct by value and sub-selection)
 	labels          map[string]bool
 	nVals           int
 	nViol, nKeyViol int
 	diffs           []keyDiff // objects whose keys fit no possible type: per not-contradicted type, the key difference
+	unstable        []string  // field paths of the unstable units the operation selects
+}
+
+// aboveUnstable: the position is an ancestor of an unstable unit of this operation, so a null
+// there may be null propagation out of the unstable subtree and is not comparable.
+func (k *walk) aboveUnstable(u string) bool {
+	if len(k.unstable) == 0 {
+		return false
+	}
+	prefix := stripIndices(u) + "/"
+	for _, p := range k.unstable {
+		if strings.HasPrefix(p, prefix) {
+			return true
+		}
+	}
+	return false
 }
 
 type keyDiff struct {
@@ -205,7 +220,7 @@ type keyDiff struct {
 }
 
 func newWalk(w *world, stable func(string) bool) *walk {
-	return &walk{w: w, stable: stable, vals: map[string][]string{}, where: map[string]string{}, labels: map[string]bool{}}
+	return &walk{w: w, stable: stable, vals: map[string][]obs{}, labels: map[string]bool{}}
 }
 
 func (k *walk) bad(format string, a ...any) {
@@ -215,19 +230,38 @@ func (k *walk) bad(format string, a ...any) {
 	}
 }
 
-func (k *walk) record(u, path, v string, rec bool) {
+// obs is one observation of an underlying field position: the value (scalars canonical JSON,
+// composites as the markers {} / [n] / null), where it was seen and the sub-selection that
+// was asked below it at that response key.
+type obs struct {
+	val  string
+	path string
+	sub  []ast.SelectionSet
+}
+
+func subID(sub []ast.SelectionSet) string {
+	var b strings.Builder
+	for _, ss := range sub {
+		if len(ss) > 0 {
+			fmt.Fprintf(&b, "%p;", ss[0])
+		}
+	}
+	return b.String()
+}
+
+func (k *walk) record(u, path, v string, rec bool, sub []ast.SelectionSet) {
 	if !rec {
 		return
 	}
 	k.nVals++
+	id := subID(sub)
 	for _, x := range k.vals[u] {
-		if x == v {
+		if x.val == v && subID(x.sub) == id {
 			return
 		}
 	}
-	k.vals[u] = append(k.vals[u], v)
-	if _, ok := k.where[u]; !ok {
-		k.where[u] = path
+	if len(k.vals[u]) < 12 {
+		k.vals[u] = append(k.vals[u], obs{val: v, path: path, sub: sub})
 	}
 }
 
@@ -258,12 +292,17 @@ func jsonKind(v any) string {
 }
 
 func (k *walk) run(p *parsedOp, r *response) {
+	k.w.unitFields(p, func(u *unit, path string, _ *ast.Field, _ []ast.SelectionSet, _ ancestry) {
+		if !k.stable(u.Key) {
+			k.unstable = append(k.unstable, path)
+		}
+	})
 	if !r.hasDat || r.Data == nil {
 		if len(r.Errors) == 0 {
 			k.bad("data is null/absent without errors")
 		}
 		k.labels["data-null"] = true
-		k.record("", "data", "null", true)
+		k.record("", "data", "null", !k.aboveUnstable(""), []ast.SelectionSet{p.op.SelectionSet})
 		return
 	}
 	obj, ok := r.Data.(map[string]any)
@@ -279,7 +318,7 @@ func (k *walk) run(p *parsedOp, r *response) {
 // equal the keys present (and whose __typename keys, if any, name it) is a consistent reading;
 // the object passes if some consistent reading passes.
 func (k *walk) object(obj map[string]any, def *ast.Definition, sets []ast.SelectionSet, u, path string, rec bool) {
-	k.record(u, path, "{}", rec)
+	k.record(u, path, "{}", rec, sets)
 	keys := make([]string, 0, len(obj))
 	for key := range obj {
 		keys = append(keys, key)
@@ -343,6 +382,7 @@ func (k *walk) object(obj map[string]any, def *ast.Definition, sets []ast.Select
 	var first *walk
 	for _, r := range readings {
 		trial := newWalk(k.w, k.stable)
+		trial.unstable = k.unstable
 		trial.fields(obj, r.t, r.cs, u, path, rec)
 		if len(trial.viol) == 0 {
 			k.merge(trial)
@@ -367,7 +407,7 @@ func (k *walk) merge(o *walk) {
 	sort.Strings(us)
 	for _, u := range us {
 		for _, v := range o.vals[u] {
-			k.record(u, o.where[u], v, true)
+			k.record(u, v.path, v.val, true, v.sub)
 		}
 	}
 	for l := range o.labels {
@@ -387,7 +427,7 @@ func (k *walk) fields(obj map[string]any, t *ast.Definition, cs []collected, u, 
 				continue
 			}
 			k.labels["typename"] = true
-			k.record(cu, cpath, canon(s), rec)
+			k.record(cu, cpath, canon(s), rec, nil)
 			continue
 		}
 		fd := t.Fields.ForName(f.Name)
@@ -418,7 +458,11 @@ func (k *walk) value(v any, t *ast.Type, sub []ast.SelectionSet, u, path string,
 		if t.NonNull {
 			k.labels["null-in-non-null-position"] = true
 		}
-		k.record(u, path, "null", rec)
+		if rec && len(sub) > 0 && k.aboveUnstable(u) {
+			k.labels["null-above-unstable-unit"] = true
+			return
+		}
+		k.record(u, path, "null", rec, sub)
 		return
 	}
 	if t.Elem != nil {
@@ -430,7 +474,7 @@ func (k *walk) value(v any, t *ast.Type, sub []ast.SelectionSet, u, path string,
 		if listDepth > 0 {
 			k.labels["nested-list"] = true
 		}
-		k.record(u, path, fmt.Sprintf("[%d]", len(l)), rec)
+		k.record(u, path, fmt.Sprintf("[%d]", len(l)), rec, sub)
 		for i, e := range l {
 			k.value(e, t.Elem, sub, fmt.Sprintf("%s[%d]", u, i), fmt.Sprintf("%s[%d]", path, i), rec, listDepth+1)
 		}
@@ -454,7 +498,7 @@ func (k *walk) value(v any, t *ast.Type, sub []ast.SelectionSet, u, path string,
 			k.bad("%s: %s is not a value of enum %s", path, clip(canon(v)), def.Name)
 			return
 		}
-		k.record(u, path, canon(v), rec)
+		k.record(u, path, canon(v), rec, nil)
 	default:
 		okKind := true
 		switch def.Name {
@@ -478,7 +522,7 @@ func (k *walk) value(v any, t *ast.Type, sub []ast.SelectionSet, u, path string,
 			k.bad("%s: %s value %s where %s is declared", path, jsonKind(v), clip(canon(v)), t.String())
 			return
 		}
-		k.record(u, path, canon(v), rec)
+		k.record(u, path, canon(v), rec, nil)
 	}
 }
 
@@ -491,29 +535,79 @@ func clip(s string) string {
 
 // ---- comparison -----------------------------------------------------------------------------
 
+// mismatch: two observations of the same underlying field position with different values,
+// X from operation SideX and Y from SideY ("q" / "q'"; equal sides = one response disagrees
+// with itself under two response keys).
 type mismatch struct {
-	U      string
-	A, B   []string // values seen in q / q'
-	PathA  string
-	PathB  string
-	Within string // "q" / "q'" when one response disagrees with itself
+	U            string
+	X, Y         obs
+	SideX, SideY string
+}
+
+func (m mismatch) within() bool { return m.SideX == m.SideY }
+
+func (m mismatch) sig() string {
+	return m.U + "\x00" + m.SideX + "\x00" + m.X.val + "\x00" + m.SideY + "\x00" + m.Y.val
 }
 
 func (m mismatch) String() string {
-	if m.Within != "" {
-		v, p := m.A, m.PathA
-		if m.Within == "q'" {
-			v, p = m.B, m.PathB
-		}
-		return fmt.Sprintf("field position %s has different values under different response keys of %s (first at %s): %s", m.U, m.Within, p, clip(strings.Join(v, " vs ")))
+	if m.within() {
+		return fmt.Sprintf("field position %s has different values under two response keys of %s: %s at %s, %s at %s", m.U, m.SideX, clip(m.X.val), m.X.path, clip(m.Y.val), m.Y.path)
 	}
-	return fmt.Sprintf("field position %s: q has %s (at %s), q' has %s (at %s)", m.U, clip(strings.Join(m.A, "|")), m.PathA, clip(strings.Join(m.B, "|")), m.PathB)
+	return fmt.Sprintf("field position %s: %s has %s (at %s), %s has %s (at %s)", m.U, m.SideX, clip(m.X.val), m.X.path, m.SideY, clip(m.Y.val), m.Y.path)
 }
 
-// compare returns the mismatches over all underlying positions common to both walks, highest
-// (shortest) positions first.
-func compare(a, b *walk) []mismatch {
-	var out []mismatch
+// subPaths is the set of underlying field paths (relative) a merged sub-selection asks for.
+func subPaths(sub []ast.SelectionSet) map[string]bool {
+	out := map[string]bool{}
+	var rec func(prefix string, ss ast.SelectionSet)
+	rec = func(prefix string, ss ast.SelectionSet) {
+		for _, s := range ss {
+			switch x := s.(type) {
+			case *ast.Field:
+				u := prefix + "/" + fieldSig(x)
+				out[u] = true
+				rec(u, x.SelectionSet)
+			case *ast.InlineFragment:
+				rec(prefix, x.SelectionSet)
+			case *ast.FragmentSpread:
+				if x.Definition != nil {
+					rec(prefix, x.Definition.SelectionSet)
+				}
+			}
+		}
+	}
+	for _, ss := range sub {
+		rec("", ss)
+	}
+	return out
+}
+
+// explainedByPropagation: one observation is null, the other is not, the null side's
+// response reports errors, and below the null observation something is selected that is not
+// selected below the other one: null propagation from that extra selection explains the
+// difference. If everything selected below the null is also selected below the value, the
+// same propagation would have nulled the other observation too.
+func explainedByPropagation(x, y obs, respX, respY *response) bool {
+	null, other, resp := x, y, respX
+	if y.val == "null" {
+		null, other, resp = y, x, respY
+	}
+	if null.val != "null" || other.val == "null" || len(null.sub) == 0 || resp == nil || len(resp.Errors) == 0 {
+		return false
+	}
+	so := subPaths(other.sub)
+	for f := range subPaths(null.sub) {
+		if !so[f] {
+			return true
+		}
+	}
+	return false
+}
+
+// compare returns the unexplained mismatches over all underlying positions of both walks,
+// highest (shortest) positions first; explained counts the pairs excused by propagation.
+func compare(a, b *walk, ra, rb *response) (out []mismatch, explained int) {
 	us := make([]string, 0, len(a.vals))
 	for u := range a.vals {
 		us = append(us, u)
@@ -529,19 +623,35 @@ func compare(a, b *walk) []mismatch {
 		}
 		return us[i] < us[j]
 	})
+	type sided struct {
+		o    obs
+		side string
+		resp *response
+	}
 	for _, u := range us {
-		va, oka := a.vals[u]
-		vb, okb := b.vals[u]
-		switch {
-		case oka && len(va) > 1:
-			out = append(out, mismatch{U: u, A: va, B: vb, PathA: a.where[u], PathB: b.where[u], Within: "q"})
-		case okb && len(vb) > 1:
-			out = append(out, mismatch{U: u, A: va, B: vb, PathA: a.where[u], PathB: b.where[u], Within: "q'"})
-		case oka && okb && va[0] != vb[0]:
-			out = append(out, mismatch{U: u, A: va, B: vb, PathA: a.where[u], PathB: b.where[u]})
+		var all []sided
+		for _, o := range a.vals[u] {
+			all = append(all, sided{o, "q", ra})
+		}
+		for _, o := range b.vals[u] {
+			all = append(all, sided{o, "q'", rb})
+		}
+		found := false
+		for i := 0; i < len(all) && !found; i++ {
+			for j := i + 1; j < len(all) && !found; j++ {
+				if all[i].o.val == all[j].o.val {
+					continue
+				}
+				if explainedByPropagation(all[i].o, all[j].o, all[i].resp, all[j].resp) {
+					explained++
+					continue
+				}
+				out = append(out, mismatch{U: u, X: all[i].o, Y: all[j].o, SideX: all[i].side, SideY: all[j].side})
+				found = true
+			}
 		}
 	}
-	return out
+	return out, explained
 }
 
 // stripIndices turns an underlying position into its field path.
@@ -569,33 +679,4 @@ func stripIndices(u string) string {
 		}
 	}
 	return b.String()
-}
-
-// excusedByBubbling: the two operations select different field sets, one of them has null
-// at u where the other has a value, the null side reported errors and selects, below u,
-// fields the other side does not select: null propagation from such a field explains the
-// difference.
-func excusedByBubbling(m mismatch, fa, fb map[string]bool, ra, rb *response) bool {
-	if m.Within != "" {
-		return false
-	}
-	check := func(nullSide, other map[string]bool, r *response) bool {
-		if len(r.Errors) == 0 {
-			return false
-		}
-		prefix := stripIndices(m.U) + "/"
-		for f := range nullSide {
-			if strings.HasPrefix(f, prefix) && !other[f] {
-				return true
-			}
-		}
-		return false
-	}
-	if len(m.A) == 1 && m.A[0] == "null" && check(fa, fb, ra) {
-		return true
-	}
-	if len(m.B) == 1 && m.B[0] == "null" && check(fb, fa, rb) {
-		return true
-	}
-	return false
 }
